@@ -72,6 +72,7 @@ type RunResult struct {
 	// Unsupported: the SQL interpreter met a statement outside its grammar; the run decides nothing
 	Unsupported string
 	Yields      []YieldSite // fault enumeration: the yields of the run that admit a fault
+	Snapshot    map[rowKey]any // committed state at the end (only when Params["keep_snapshot"] is set)
 	post        []func() ([]Violation, bool)
 }
 
@@ -545,6 +546,9 @@ func runInBubble(t *testing.T, sc *Scenario, plan *Plan, ex *ExploreCfg, res *Ru
 	res.Recorded = w.recorded
 	res.Harness = w.harness
 	res.Yields = w.yields
+	if sc.Params["keep_snapshot"] == "1" {
+		res.Snapshot = w.db.CommittedSnapshot()
+	}
 	w.mu.Lock()
 	res.Unsupported = w.sqlUnsupported
 	w.mu.Unlock()
